@@ -184,12 +184,15 @@ def crash_case(job):
     backend, keys, sid, init, op, idx, name, m, args, wd, partial = job
     rc, res, calls = run_op(backend, keys, init, op, wd, kill=(name, m))
     out = []
+    window = args.endswith('\x00WINDOW')
+    args = args.replace('\x00WINDOW', '')
     site = '%s:%s' % (name, role(args))
 
     def trace(view, part):
         return {'events': [{'kind': 'crash', 'single': backend.startswith('file'), 'M': init, 'ops': [op], 'res': [], 'view': view}],
                 'meta': {'backend': backend, 'keys': keys, 'scenario': sid, 'op': op, 'init': init, 'kill_index': idx, 'kill': [name, m],
-                         'site': site, 'partial': part, 'killed': rc == -9, 'call': '%s(%s' % (name, args[:140])}}
+                         'site': site, 'partial': part, 'killed': rc == -9, 'call': '%s(%s' % (name, args[:140]),
+                         'overwrite_window': window}}
     out.append(trace(view_of(backend, wd, keys), 0))
     if partial and rc == -9:
         # the kill arrived on entry to the call AFTER a write to a staging file: truncating that file is what a kill
@@ -206,6 +209,34 @@ def crash_case(job):
     return out
 
 
+def overwrite_window(calls):
+    """per call index (1-based): is a kill on entry to that call inside the known overwrite window of dir_archive -
+    after the old entry was renamed away and before the (already fully written) staging directory is renamed into
+    place?  The staging directory must have been written BEFORE the old entry was moved."""
+    flags = [False] * (len(calls) + 1)
+    written = False          # a write to a staging file since the last rename into place
+    away = None
+    for i, (name, args) in enumerate(calls, 1):
+        if away is not None:
+            flags[i] = True
+        if name == 'write' and not args.startswith('1,'):
+            if away is not None:
+                # staging is (re)written while the old entry is already gone: not the known window
+                for j in range(away + 1, i + 1):
+                    flags[j] = False
+                away = None
+            written = True
+        elif name == 'rename':
+            parts = args.split('", "')
+            src, dst = parts[0], parts[1] if len(parts) > 1 else ''
+            if '.I_' in dst and '.I_' not in src:            # final -> staging name: the old entry moves away
+                away = i if written else None
+            elif '.I_' in src and '.I_' not in dst:          # staging -> final: the new entry is in place
+                away = None
+                written = False
+    return flags
+
+
 def crash_jobs(backend, keys, sid, init, op, root, counter):
     """uninjected run under strace -> the operation's call sequence -> one job per crash point"""
     wd = os.path.join(root, 'base%d' % next(counter))
@@ -218,10 +249,12 @@ def crash_jobs(backend, keys, sid, init, op, root, counter):
     seen = {}
     jobs = []
     prev_write_to_staging = False
+    win = overwrite_window(calls) if backend.startswith('dir') else [False] * (len(calls) + 1)
     for idx, (name, args) in enumerate(calls, 1):
         seen[name] = seen.get(name, 0) + 1
         partial = prev_write_to_staging
-        jobs.append((backend, keys, sid, init, op, idx, name, seen[name], args, os.path.join(root, 'k%d' % next(counter)), partial))
+        jobs.append((backend, keys, sid, init, op, idx, name, seen[name], args + ('\x00WINDOW' if win[idx] else ''),
+                     os.path.join(root, 'k%d' % next(counter)), partial))
         prev_write_to_staging = name == 'write' and not args.startswith('1,') and not backend.startswith('sql')
     return jobs, {'result': res, 'view': view, 'calls': ['%s:%s' % (n, role(a)) for n, a in calls]}
 
@@ -230,7 +263,7 @@ def signature(t, v, pid):
     m = t['meta']
     return {'engine': 'fs', 'kind': t['events'][0]['kind'], 'clauses': v[1], 'backend': m['backend'], 'family': family(m['backend']),
             'op': m['op']['t'] if 'op' in m else None, 'site': m.get('site'), 'partial': bool(m.get('partial')),
-            'keys': m.get('keys'), 'killed': m.get('killed')}
+            'keys': m.get('keys'), 'killed': m.get('killed'), 'overwrite_window': bool(m.get('overwrite_window'))}
 
 
 def check_C13(tier):
@@ -334,7 +367,7 @@ def replay(pid, path):
     if pid == 'C13':
         wd = os.path.join(common.scratch('fs-replay'), 'r')
         job = (case['backend'], case['keys'], case['scenario'], case['init'], case['op'], case['kill_index'], case['kill'][0], case['kill'][1],
-               '', wd, bool(case['partial']))
+               '\x00WINDOW' if case.get('overwrite_window') else '', wd, bool(case['partial']))
         ts = crash_case(job)
         verdicts, _ = common.validate_traces('FsTrace', [{'events': t['events']} for t in ts], [pid])
         bad = [(t, v) for t, v in zip(ts, verdicts) if v is not None]
